@@ -98,8 +98,14 @@ func wrapScalar(x *univ.Node, how int) (*univ.Node, string) {
 		return univ.Struct(univ.StructOf(univ.Field{Name: "F", Tag: `bexpr:"X"`, Type: univ.PtrTo(x.T)}), univ.Ptr(x)), "tagged *T struct field"
 	case 4:
 		return univ.MapNode(univ.MapOf(univ.TString, x.T), []*univ.Node{univ.Str("X")}, []*univ.Node{x}), "map[string]T"
-	default:
+	case 5:
 		return univ.IfaceMap("X", univ.IfaceSlice(x)), "element"
+	case 6, 7:
+		return univ.IfaceMap("X", univ.Slice(univ.SliceOf(x.T), x)), "element of a typed list, bound by a quantifier"
+	case 8:
+		return univ.Struct(univ.StructOf(univ.Field{Name: "X", Type: univ.ArrayOf(1, x.T)}), &univ.Node{T: univ.ArrayOf(1, x.T), Items: []*univ.Node{x}}), "element of a typed array, bound by a quantifier"
+	default:
+		return univ.IfaceMap("X", univ.Slice(univ.SliceOf(x.T), x)), "element of a typed list"
 	}
 }
 
@@ -114,6 +120,11 @@ func c02Eval(c *mon.Ctx, r *rand.Rand, datum *univ.Node, sel string, op string, 
 	style := sts[r.Intn(len(sts))]
 	txt := (&xgen.Renderer{R: r}).RenderLit(&xgen.Lit{S: lit, Style: style}, true)
 	text := sel + " " + op + " " + txt
+	if strings.HasPrefix(sel, "quant:") {
+		// a one-element list: `any X as n { n OP lit }` is the comparison itself
+		form := strings.TrimPrefix(sel, "quant:")
+		text = strings.ReplaceAll(form, "BODY", "n "+op+" "+txt)
+	}
 	c.Evals(1)
 	ev, err, pan, _ := createEval(text)
 	if pan != "" || err != nil {
@@ -125,14 +136,21 @@ func c02Eval(c *mon.Ctx, r *rand.Rand, datum *univ.Node, sel string, op string, 
 
 // expect asserts X == lit is `want` ("T","F","E") and X != lit the complement.
 func c02Expect(c *mon.Ctx, r *rand.Rand, x *univ.Node, lit string, want string, why string) {
-	how := r.Intn(6)
+	how := r.Intn(10)
 	if x.T.Named == "JSONNumber" && (how == 1 || how == 3) {
 		how = 0 // a *json.Number is not narrowed (the statement lists pointer and json.Number as alternatives)
 	}
 	datum, hname := wrapScalar(x, how)
 	sel := "X"
-	if how == 5 {
+	switch how {
+	case 5, 9:
 		sel = "X.0"
+	case 6:
+		sel = "quant:any X as n { BODY }"
+	case 7:
+		sel = "quant:all X as _, n { BODY }"
+	case 8:
+		sel = "quant:any X as i, n { BODY and i == 0 }"
 	}
 	for _, op := range []string{"==", "!="} {
 		w := want
@@ -208,7 +226,7 @@ func c02Ints(c *mon.Ctx, r *rand.Rand) {
 	sp = spellInt(r, n, m)
 	c02Expect(c, r, node, sp[r.Intn(len(sp))], "F", "different-integer")
 	// not a valid 64-bit integer literal
-	bad := []string{"abc", "", "1.0", "1e3", "1.5", "0x", "0b2", "08", "1__0", "_1", "9223372036854775808", "-9223372036854775809", "99999999999999999999", " 1", "1 ", "true", "0x1p3", "１"}
+	bad := []string{"abc", "", "1.0", "1e3", "1.5", "0x", "0b2", "08", "1__0", "_1", "9223372036854775808", "-9223372036854775809", "99999999999999999999", " 1", "1 ", "true", "0x1p3", "１", fmt.Sprint(x) + "u", fmt.Sprint(x) + "i", fmt.Sprint(x) + "f", fmt.Sprint(x) + "uint"}
 	c02Expect(c, r, node, bad[r.Intn(len(bad))], "E", "invalid-integer-literal")
 }
 
@@ -246,7 +264,7 @@ func c02Uints(c *mon.Ctx, r *rand.Rand) {
 	y := others[r.Intn(len(others))]
 	sp = spellUint(r, y)
 	c02Expect(c, r, node, sp[r.Intn(len(sp))], "F", "different-unsigned")
-	bad := []string{"-1", "-0x1", "abc", "", "1.0", "18446744073709551616", "1e3", "0x", "08", " 1"}
+	bad := []string{"-1", "-0x1", "abc", "", "1.0", "18446744073709551616", "1e3", "0x", "08", " 1", "-0", "+0", "-0x0", "+0b101", "+" + fmt.Sprint(x), "+" + fmt.Sprintf("%#x", x), fmt.Sprint(x) + "u", fmt.Sprint(x) + "i"}
 	c02Expect(c, r, node, bad[r.Intn(len(bad))], "E", "invalid-unsigned-literal")
 }
 
@@ -551,8 +569,33 @@ func c02Twins(c *mon.Ctx, r *rand.Rand) {
 	c.Count("hash_twin_rounds")
 }
 
+// c02SuffixTwins: in one process, a literal that is a number followed by
+// the beginning of a type name ("7u", "7ui", "3in", "1f") against kind K, and
+// the plain number against the kind whose name continues it ("7" against
+// uint...). Anything remembered per (literal, kind) under a key built by
+// plain concatenation would mix the two.
+func c02SuffixTwins(c *mon.Ctx, r *rand.Rand) {
+	signed := []*univ.Type{univ.TInt, univ.TInt8, univ.TInt16, univ.TInt32, univ.TInt64}
+	unsigned := []*univ.Type{univ.TUint, univ.TUint8, univ.TUint16, univ.TUint32, univ.TUint64}
+	d := int64(r.Intn(100))
+	i := r.Intn(5)
+	if r.Intn(2) == 0 {
+		c02Expect(c, r, univ.IntOf(signed[i], d), fmt.Sprint(d)+"u", "E", "suffix-twin")
+		c02Expect(c, r, univ.UintOf(unsigned[i], uint64(d)), fmt.Sprint(d), "T", "suffix-twin")
+		c02Expect(c, r, univ.IntOf(signed[i], d), fmt.Sprint(d), "T", "suffix-twin")
+	} else {
+		c02Expect(c, r, univ.UintOf(unsigned[i], uint64(d)), fmt.Sprint(d), "T", "suffix-twin")
+		c02Expect(c, r, univ.IntOf(signed[i], d), fmt.Sprint(d)+"u", "E", "suffix-twin")
+		c02Expect(c, r, univ.UintOf(unsigned[i], uint64(d)), fmt.Sprint(d)+"u", "E", "suffix-twin")
+	}
+	c.Count("suffix_twin_rounds")
+}
+
 func c02Run(c *mon.Ctx, idx int) {
 	r := c.RNG(idx)
+	if idx%100 == 50 {
+		c02SuffixTwins(c, r)
+	}
 	if idx%500 == 0 {
 		c02Twins(c, r)
 	}
@@ -587,7 +630,7 @@ func init() {
 		NumCases:    func(tier string) int { return tierN(tier, 16000, 1000000) },
 		Run:         c02Run,
 		Required: func(tier string) []string {
-			l := []string{"hash_twin_rounds", "int:spelling-equal", "int:wraparound-literal", "int:above-2^53", "uint:wraparound-literal", "uint:above-maxint64", "float32_midpoint_witnesses", "float64_cases", "jsonnumber_cases", "coerce_direct",
+			l := []string{"hash_twin_rounds", "suffix_twin_rounds", "int:spelling-equal", "int:wraparound-literal", "int:above-2^53", "uint:wraparound-literal", "uint:above-maxint64", "float32_midpoint_witnesses", "float64_cases", "jsonnumber_cases", "coerce_direct",
 				"nonscalar:interface", "nonscalar:slice", "nonscalar:map", "nonscalar:struct", "nonscalar:ptr"}
 			for _, k := range []string{"int", "int8", "int16", "int32", "int64", "uint", "uint8", "uint16", "uint32", "uint64", "float32", "float64", "bool", "string"} {
 				l = append(l, "kind:"+k+"/T", "kind:"+k+"/F")
